@@ -121,7 +121,12 @@ func (v *objectValidator) feedObjectValueBegin() ([]validator, bool) {
 		}
 	}
 	if c := v.node_.Constraint(constraint.AdditionalPropertiesConstraintType); c != nil {
-		return newAdditionalPropertiesValidator(v.node_, v, c.(*constraint.AdditionalProperties)), false
+		ap := c.(*constraint.AdditionalProperties) //nolint:errcheck // The constraint of this type.
+		// With "additionalProperties: false" the key itself is at fault, as
+		// without the rule: the error below names the key and points at it.
+		if ap.Mode() != constraint.AdditionalPropertiesNotAllowed {
+			return newAdditionalPropertiesValidator(v.node_, v, ap), false
+		}
 	}
 
 	panic(lexeme.NewLexEventError(
